@@ -101,7 +101,84 @@ def read_cooler(uri, cols=("count",)):
         "mode": str(clr.storage_mode),
         "b1off": [int(x) for x in clr._load_dset("indexes/bin1_offset")],
         "choff": [int(x) for x in clr._load_dset("indexes/chrom_offset")],
+        "attrs": raw_attrs(uri),
+        "matrix": dense_matrix(clr, cols[0]) if int(info["nbins"]) <= MATRIX_MAX_BINS else None,
     }
+
+
+MATRIX_MAX_BINS = 150
+ATTR_KEYS = ("storage-mode", "bin-type", "bin-size", "nbins", "nchroms", "nnz", "sum", "format", "format-version")
+
+
+def raw_attrs(uri):
+    """the header attributes as stored (None when absent), read with h5py"""
+    import h5py
+    from cooler.util import parse_cooler_uri
+    path, grp = parse_cooler_uri(str(uri))
+    out = {}
+    with h5py.File(path, "r") as f:
+        a = f[grp].attrs
+        for k in ATTR_KEYS:
+            v = a.get(k)
+            if isinstance(v, bytes):
+                v = v.decode()
+            if isinstance(v, (np.integer,)):
+                v = int(v)
+            elif isinstance(v, (np.floating,)):
+                v = float(v)
+            elif v is not None and not isinstance(v, (int, float, str)):
+                v = str(v)
+            out[k] = v
+    return out
+
+
+def dense_matrix(clr, field="count"):
+    m = clr.matrix(balance=False, field=field)[:]
+    return [[(float(x) if isinstance(x, (float, np.floating)) else int(x)) for x in row] for row in np.asarray(m).tolist()]
+
+
+def strip_attr(uri, attr):
+    """legacy / optional header attributes: delete one attribute (or 'name:value' sets an integer) with h5py"""
+    import h5py
+    from cooler.util import parse_cooler_uri
+    path, grp = parse_cooler_uri(str(uri))
+    with h5py.File(path, "r+") as f:
+        if ":" in attr:
+            k, v = attr.split(":")
+            f[grp].attrs[k] = int(v)
+        else:
+            del f[grp].attrs[attr]
+
+
+def expected_dense(nbins, pixels, symmetric, col=2):
+    m = [[0] * nbins for _ in range(nbins)]
+    for p in pixels:
+        m[p[0]][p[1]] += p[col]
+        if symmetric and p[0] != p[1]:
+            m[p[1]][p[0]] += p[col]
+    return m
+
+
+def semantics_bad(r, ebins, epx, symmetric, total):
+    """attributes and READS of a level, beyond the raw tables: storage-mode as stored, bin-type/bin-size, the
+    counters, the format tag and the dense matrix (symmetric completion for symmetric-upper storage)"""
+    a = r["attrs"]
+    want_mode = "symmetric-upper" if symmetric else "square"
+    if a["storage-mode"] != want_mode:
+        return {"what": "storage-mode attribute of the level", "got": a["storage-mode"], "expected": want_mode}
+    nch = len({b[0] for b in ebins})
+    for k, exp in (("nbins", len(ebins)), ("nchroms", nch), ("nnz", len(epx)), ("sum", total), ("format", "HDF5::Cooler")):
+        if a[k] != exp:
+            return {"what": f"attribute {k}", "got": a[k], "expected": exp}
+    if a["bin-type"] not in ("fixed", "variable") or (a["bin-type"] == "fixed") != (r["binsize"] is not None):
+        return {"what": "bin-type / bin-size attributes", "bin-type": a["bin-type"], "bin-size": str(a["bin-size"])}
+    if r["matrix"] is not None:
+        exp = expected_dense(len(ebins), epx, symmetric)
+        if r["matrix"] != exp:
+            bad = [(i, j) for i in range(len(exp)) for j in range(len(exp)) if r["matrix"][i][j] != exp[i][j]][:6]
+            return {"what": "Cooler(level).matrix(balance=False)[:] is not the (symmetric completion of the) block aggregation",
+                    "first_differing_cells": bad, "got": [r["matrix"][i][j] for i, j in bad], "expected": [exp[i][j] for i, j in bad]}
+    return None
 
 
 # ----------------------------------------------------------------- reference
